@@ -7,7 +7,7 @@ import subprocess, sys, json, os, shutil, time
 def sh(c, **kw): return subprocess.run(c, shell=True, capture_output=True, text=True, **kw)
 pid, k = sys.argv[1], sys.argv[2]
 checks = sys.argv[3:] or [pid]
-wt = os.environ.get('SEED_WT', f'/tmp/wt-{pid}'); md = f'{wt}/MUTANTS/{k}'
+wt = os.environ.get('SEED_WT', '/tmp/wt-{pid}').replace('{pid}', pid); md = f'{wt}/MUTANTS/{k}'
 name = os.environ.get('SEED_NAME', f'{pid}-{k}')
 env = f'CARGO_TARGET_DIR={wt}/target CARGO_NET_OFFLINE=true'
 assert os.path.exists(f'{md}/patch.diff'), 'no patch'
